@@ -18,8 +18,10 @@ import time
 ROOT = os.path.dirname(os.path.dirname(os.path.abspath(__file__)))
 BUILD = os.path.join(ROOT, ".build")
 COQ = os.path.join(ROOT, "coq")
-HARNESS = os.path.join(ROOT, "harness")
-TARGET = os.path.join(BUILD, "target")
+# GV_HARNESS_DIR / GV_TARGET_DIR: used only by tools/seedtest.sh to run a check against a scratch
+# copy of /repo without touching /repo itself; the registered commands never set them.
+HARNESS = os.environ.get("GV_HARNESS_DIR", os.path.join(ROOT, "harness"))
+TARGET = os.environ.get("GV_TARGET_DIR", os.path.join(BUILD, "target"))
 EVID = os.path.join(ROOT, "evidence")
 KNOWN_FILE = os.path.join(ROOT, "known-findings.json")
 NCPU = os.cpu_count() or 4
